@@ -566,6 +566,7 @@ def configs(tier):
 
 NO_PREFIX = ("nn_tucker_hals", "class_Tucker_NN_HALS")   # fista / active-set inner loops are capped by the OUTER n_iter_max   # fista/active-set inner loops are capped by the OUTER n_iter_max; PARAFAC2's line search overwrites rec_errors[-1]
 SLOW_CONFIGS = ("hals_sparse_norm_exact", "nn_tucker_hals_exact")   # exact=True: seconds of CPU per sweep
+SWEEP_CONFIGS = ("parafac", "parafac_svd", "parafac_fixed")     # plain ALS: unit weights, no normalisation / mask / sparsity / line search
 LS_CONFIGS = ("parafac_ls", "parafac_ls_cb", "parafac_ls_norm", "parafac_ls_mask", "parafac_ls_sparse", "parafac2_ls", "parafac2_ls_norm")
 # shapes whose last two modes have the same size: a shortcut pairing the MTTKRP with the wrong factor then yields a wrong NUMBER instead of a shape error
 SHAPES_EQ = {2: [(4, 4)], 3: [(3, 3, 3)], 4: [(2, 2, 2, 2)]}
@@ -642,6 +643,8 @@ def close(a, b):
 
 
 class Collector:
+    QSTEP = 24
+
     def __init__(self, chk):
         self.chk = chk
         self.cases = []
@@ -656,7 +659,12 @@ class Collector:
         self.cases.append(f"({cid}%nat, inl {lit(LD)})")
         self.meta.append(meta)
         self.n_primary = getattr(self, "n_primary", 0) + 1
-        if self.n_primary % 8 == 1:
+        text = self.cases[-1]
+        kname = text[text.index("(K") + 1:].split(" ", 1)[0].rstrip(")")
+        seen = self.__dict__.setdefault("q_seen", {})
+        seen[kname] = seen.get(kname, 0) + 1
+        # Qops cross-check of the dyadic execution: the first case of every kind, then every QSTEP-th case of the kind (a Q case costs 3-4x a dyadic one)
+        if seen[kname] % self.QSTEP == 1:
             self.cases.append(f"({cid + 1}%nat, inr {lit(LQ)})")
             self.meta.append(dict(meta, what=meta["what"] + " [Qops cross-check of the dyadic execution]"))
         return cid
@@ -709,6 +717,16 @@ def check_run(col, name, entry, X, kind, rank, k, seed, opts, rec, light=False):
         if not light:
             col.add(lit, dict(inputs=inputs, what="last reported value vs returned decomposition", entry=entry), expect_fail=not ok)
         chk.count(key=(name, X.shape, kind, k), nontrivial=True)
+        fin = rec.final
+        if (not light and fin.get("kind") == "cp" and fin.get("mask") is not None and not rec.squared_unnormalised
+                and (not opts.get("sparsity") or isinstance(opts.get("sparsity"), int))):
+            # the right-hand side of C06_masked_loop_reports_errors_of_original_data: error_calc_model on the ORIGINAL data for the returned
+            # factors (the model imputes and computes the sparse component itself) against the last value of the masked run
+            card_ = opts.get("sparsity") or None
+            col.add(lambda P, fin=fin, card_=card_, rep=rep: (f"(KErrCalcFull {P.t(X)} {C.nat(fin['fs'][0].shape[1])} {P.opt_w(fin['w'])} {P.ts(fin['fs'])} "
+                                                              f"{optnat(card_)} {P.opt_t(fin['mask'])} None {P.num(rep)})"),
+                    dict(inputs=inputs, what="masked CP run: last value vs error_calc_model on the original data for the returned factors", entry=entry), expect_fail=not ok)
+            chk.count(key=(name, X.shape, kind, k, "masked_model"), nontrivial=True)
         if rec.final.get("hooi") and not light:
             # the model of HOOI's shortcut itself (|norm^2 - norm(core)^2| / norm^2) against the reported value
             G_ = rec.final["G"]
@@ -1263,6 +1281,33 @@ def _install_local_known():
     load_known._c06 = True
     C.load_known = load_known
 
+# measured CPU seconds per case (coqc vm_compute, dyadic / Qops) used to balance the shards; unknown kinds count as 0.2
+KIND_COST = {"KCP": (0.12, 0.32), "KTucker": (0.31, 0.93), "KParafac2": (0.5, 1.9), "KHooiHyp": (0.31, 0.9), "KTR": (0.32, 1.45), "KErrCalcFull": (0.12, 0.35),
+             "KNormalize": (0.16, 0.16), "KHooi": (0.13, 0.33), "KCmtf": (0.31, 1.1), "KTrace": (0.013, 0.04), "KTuckerNormalize": (0.26, 0.26), "KEvents": (0.025, 0.09),
+             "KSparsify": (0.08, 0.14), "KCPfast": (0.24, 0.7), "KSLoop": (0.015, 0.2), "KErrCalc": (0.18, 0.5), "KP2Len": (0.026, 0.24), "KP2Events": (0.09, 0.78),
+             "KDense": (0.1, 0.3)}
+
+
+def balanced(cases, nsh):
+    """reorder the case list so that contiguous chunks of equal length have about equal estimated cost: heaviest first, dealt round-robin
+    (the ids travel with the cases).  Returns (ordered cases, chunk length)."""
+    import re as _re
+    def cost(c):
+        m_ = _re.match(r"\(\d+%nat, (inl|inr) \((K\w+)", c)
+        if not m_:
+            return 0.2
+        a, b = KIND_COST.get(m_.group(2), (0.2, 0.2))
+        return (b if m_.group(1) == "inr" else a) * (1.0 + len(c) / 20000.0)
+    idx = sorted(range(len(cases)), key=lambda i: -cost(cases[i]))
+    bins = [[] for _ in range(nsh)]
+    for j, i in enumerate(idx):
+        r = j % (2 * nsh)
+        bins[r if r < nsh else 2 * nsh - 1 - r].append(i)     # boustrophedon deal
+    size = max(1, -(-len(cases) // nsh))
+    # equalise the bin lengths to `size` (the last chunk may be shorter): move surplus items of a bin to the next one
+    flat = [i for b in bins for i in b]
+    return [cases[i] for i in flat], size
+
 
 def run(chk):
     rng = random.Random(chk.seed)
@@ -1303,7 +1348,8 @@ def run(chk):
         recs = {}
         for k in ks:
             # thorough: every prefix length runs and is judged by the Python predicates; Coq cases for the first, the third and the longest one
-            light_k = light or (chk.tier != "quick" and X_pinned is None and len(ks) > 3 and k not in (ks[0], ks[2], ks[-1]))
+            light_k = light or (chk.tier != "quick" and X_pinned is None and len(ks) > 3 and k not in (ks[0], ks[2], ks[-1])) \
+                or (chk.tier == "quick" and X_pinned is None and len(ks) >= 3 and k not in (ks[0], ks[-1]))
             st, rec = one_run(runner, X, rank, k, seed, o)
             nruns += 1
             chk.hist("algorithm", name); chk.hist("order", len(shape)); chk.hist("data", kind); chk.hist("outcome", st)
@@ -1344,6 +1390,18 @@ def run(chk):
                 chk.sample({"config": name, "shape": list(shape), "data": kind, "rank": rank, "n_iter_max": k,
                             "reported": series(rec)[-3:], "findings": nf})
         prefix_consistency(chk, name, entry, X, kind, rank, seed, o, recs)
+        if name in SWEEP_CONFIGS and not light:
+            # consecutive prefix runs (same seed, same trajectory): factors before / after iteration k and the value reported for it, against
+            # one iteration of the loop on data (the model computes the MTTKRPs of the sweep itself)
+            ms_ = [m_ for m_ in range(X.ndim) if m_ not in (o.get("fixed_modes") or [])]
+            for k in sorted(recs):
+                if k - 1 in recs and recs[k].errors and len(recs[k].errors) == k and recs[k - 1].final["kind"] == "cp":
+                    b, a, rep_ = recs[k - 1].final, recs[k].final, recs[k].errors[-1]
+                    col.add(lambda P, b=b, a=a, rep_=rep_, ms_=ms_: (f"(KSweep {P.t(X)} {C.nat(a['fs'][0].shape[1])} {P.opt_w(b['w'])} {P.ts(b['fs'])} {P.ts(a['fs'])} "
+                                                                       f"{C.nat_list(ms_)} {P.num(rep_)})"),
+                            dict(inputs=dict(describe(name, entry, X, kind, rank, k, seed, o), iteration=k - 1),
+                                 what="one parafac iteration on data: sweep with the model's own MTTKRPs + error_calc shortcut vs the reported value", entry=entry))
+                    chk.count(key=(name, X.shape, kind, "sweep", k), nontrivial=True)
     error_calc_cases(col, chk.tier, rng)
     parafac2_error_cases(col, chk.tier, rng)
     normalize_cases(col, chk.tier, rng)
@@ -1358,9 +1416,10 @@ def run(chk):
     except AttributeError as ex:     # a renamed helper cannot be interposed any more: the event cases are skipped, never a verdict
         skipped += 1
         chk.hist("skipped", f"event traces: {ex}"[:80])
-    # quick: one wave of at most 16 shards
-    shard = max(30, min(64, -(-len(col.cases) // 16))) if chk.tier == "quick" else 120
-    failing, n_eval, broken = C.run_case_shards("C06", HEADER, "case", col.cases, shard=shard)
+    # one wave of 16 shards of equal estimated cost (quick); thorough: 48 balanced shards
+    nsh = 16 if chk.tier == "quick" else 48
+    ordered, shard = balanced(col.cases, nsh)
+    failing, n_eval, broken = C.run_case_shards("C06", HEADER, "case", ordered, shard=shard)
     chk.checker_cmds.append("coqc (vm_compute) on generated build/cases/C06/*.v: Corr.C06.failing")
     chk.cov["traces_validated_against_impl"] = n_eval
     chk.cov["skipped_ill_conditioned_or_raising"] = skipped
